@@ -185,6 +185,11 @@ type flowResult struct {
 	Ops      []opLine
 	factsAt  map[int][]*a.Expr
 	ck       *flowChecked
+
+	Coroutine bool
+	Hists     []flowHistory
+	HistDone  []bool     // completed by the interpreter without failure
+	Obs       [][]string // per history: one observation line per call
 }
 
 type opLine struct{ op, impl string }
@@ -227,7 +232,21 @@ func (in *flowInterp) mkArgs(x flowArgs, prevData *fval, prevIO *fio) (map[t.ID]
 	return args, data, io
 }
 
-func (in *flowInterp) runHistory(h flowHistory, coroutine bool) (status string, fail *fAbort) {
+func flowStatusWord(s string, coroutine bool) string {
+	switch {
+	case !coroutine:
+		return "-"
+	case strings.Contains(s, "$short read"):
+		return "$short read"
+	case strings.Contains(s, "$short write"):
+		return "$short write"
+	case s == "ok":
+		return "ok"
+	}
+	return s
+}
+
+func (in *flowInterp) runHistory(h flowHistory, coroutine bool) (status string, fail *fAbort, obs []string) {
 	in.reset()
 	in.fuel = 4000
 	var data *fval
@@ -238,6 +257,9 @@ func (in *flowInterp) runHistory(h flowHistory, coroutine bool) (status string, 
 		switch c.Kind {
 		case "tweak":
 			res = in.callPublic("tweak", map[t.ID]*fval{in.tm.ByName("v"): {I: big.NewInt(c.Args.V)}})
+			if res.Fail == nil && res.Status == "ok" {
+				obs = append(obs, in.observe("-", nil, nil))
+			}
 		case "run":
 			var args map[t.ID]*fval
 			args, data, io = in.mkArgs(c.Args, nil, nil)
@@ -248,23 +270,26 @@ func (in *flowInterp) runHistory(h flowHistory, coroutine bool) (status string, 
 			}
 		case "resume":
 			if !in.suspended {
-				return "ok", nil
+				return "ok", nil, obs
 			}
 			var args map[t.ID]*fval
 			args, data, io = in.mkArgs(c.Args, data, io)
 			res = in.resumeCoroutine(args)
 		}
 		if res.Fail != nil {
-			return "abort", res.Fail
+			return "abort", res.Fail, obs
 		}
 		if res.Status == "error-status" {
-			return "ok", nil // the object is disabled from here on
+			return "ok", nil, obs // the object is disabled from here on
 		}
 		if res.Status != "ok" && !strings.HasPrefix(res.Status, "suspended:") {
-			return res.Status, nil
+			return res.Status, nil, obs
+		}
+		if c.Kind != "tweak" {
+			obs = append(obs, in.observe(flowStatusWord(res.Status, coroutine), data, io))
 		}
 	}
-	return "ok", nil
+	return "ok", nil, obs
 }
 
 func flowCulpritOfKey(key string) string {
@@ -306,9 +331,13 @@ func flowRunProgram(fr *flowFront, rd *hlib.Rand, res *flowResult, coroutine boo
 		in.factsAt[line] = facts
 	}
 	seen := map[string]bool{}
+	res.Coroutine = coroutine
 	for hi := 0; hi < nHist; hi++ {
 		h := flowRandHistory(rd, coroutine)
-		status, fail := in.runHistory(h, coroutine)
+		status, fail, obs := in.runHistory(h, coroutine)
+		res.Hists = append(res.Hists, h)
+		res.Obs = append(res.Obs, obs)
+		res.HistDone = append(res.HistDone, fail == nil && status == "ok")
 		switch {
 		case fail != nil:
 			res.Stats["hist:abort"]++
@@ -452,6 +481,12 @@ func flowPart(r *hlib.Run, l *loaded) {
 			r.Fail(f.Key, f.Desc, f.Replay)
 		}
 	}
+	// the interpreter against the generated C (a sample of the programs)
+	nC := 24
+	if r.Thorough {
+		nC = 240
+	}
+	flowCCompare(r, results, nC)
 	r.Extra("flow_programs_accepted", accepted)
 	r.Extra("flow_probe_points", points)
 	r.Extra("flow_facts_probed", factsN)
